@@ -256,6 +256,10 @@ impl WritableBuffer {
     fn memoise_name(&mut self, name: &DomainName) {
         if !name.is_root() && !self.name_pointers.contains_key(name) {
             if let Ok(index) = u16::try_from(self.index()) {
+                // a compression pointer only has 14 bits of offset
+                if index > 0b0011_1111_1111_1111 {
+                    return;
+                }
                 let [hi, lo] = index.to_be_bytes();
                 self.name_pointers
                     .insert(name.clone(), u16::from_be_bytes([hi | 0b1100_0000, lo]));
